@@ -214,7 +214,13 @@ const DATA: [f64; 7] = [-2.0, -1.0, 0.0, 0.1, 0.5, 1.0, 3.0];
 
 fn run_m<T: Fl>(c: &MCase, lx: &mut Local) {
     let off = [0.0, 1e3, 1e6][c.off as usize];
-    let xs: Vec<T> = c.digits.iter().map(|&d| T::of(DATA[d as usize] + off)).collect();
+    let mut xs: Vec<T> = c.digits.iter().map(|&d| T::of(DATA[d as usize] + off)).collect();
+    // every 4th data set (by digit sum) gets one non-finite element: the bulk and the single form must still agree
+    let dsum: usize = c.digits.iter().map(|&d| d as usize).sum();
+    if dsum % 4 == 3 && !xs.is_empty() {
+        let k = dsum % xs.len();
+        xs[k] = T::of([f64::NAN, f64::INFINITY, f64::NEG_INFINITY][(dsum / 4) % 3]);
+    }
     for st in [1isize, -2] {
         lx.single(|lx| {
             let h = Host1::new(&xs, st, 1, T::of(777.0));
@@ -406,7 +412,7 @@ fn main() {
     let mcases = (1..=mmax).flat_map(|n| sequences(n, 7)).flat_map(|d| (0..3u8).flat_map(move |off| { let d = d.clone(); (0..2u8).map(move |ty| MCase { digits: d.clone(), off, ty }) }));
     rep.run_sub(
         "central-moments-bulk-vs-single",
-        &format!("every array of length 1..={} over {:?} at offsets 0, 1e3, 1e6, f64 and f32, strides {{1,-2}}: central_moments(p)[k] vs central_moment(k) bit for bit for every k <= p, p = 0..=10", mmax, DATA),
+        &format!("every array of length 1..={} over {:?} at offsets 0, 1e3, 1e6, f64 and f32, strides {{1,-2}}: central_moments(p)[k] vs central_moment(k) bit for bit for every k <= p, p = 0..=10; every 4th data set contains one NaN / +inf / -inf element", mmax, DATA),
         mcases,
         |c, lx| {
             lx.nontrivial(c.digits.len() >= 2);
@@ -414,6 +420,120 @@ fn main() {
                 run_m::<f64>(c, lx)
             } else {
                 run_m::<f32>(c, lx)
+            }
+        },
+    );
+    // several long lanes: every slice of the bulk result against the single-q call; long lanes: bulk vs single selection
+    let lls: Vec<usize> = if thorough { vec![9, 16, 17, 18, 32, 33, 34, 40, 64, 65, 66, 100, 129] } else { vec![16, 17, 18, 33, 34, 65, 129] };
+    let mut lcases: Vec<(usize, usize, usize, usize, usize)> = Vec::new();
+    for &ll in &lls {
+        for nl in [2usize, 3] {
+            for axis in 0..2usize {
+                for nq in [4usize, 9, 18, 36, 70] {
+                    if nq <= 2 * ll {
+                        lcases.push((ll, nl, axis, nq, (ll + nl + axis + nq) % 24));
+                    }
+                }
+            }
+        }
+    }
+    rep.run_sub(
+        "bulk-vs-single-several-long-lanes",
+        &format!("2 and 3 lanes of length {:?} along either axis (24 layouts rotating) x request lists of 4..70 q values x 5 strategies: every slice of quantiles_axis_mut vs quantile_axis_mut for that q", lls),
+        lcases.into_iter(),
+        |c, lx| {
+            let (ll, nl, axis, nq, li) = *c;
+            lx.nontrivial(true);
+            let shape: Vec<usize> = if axis == 1 { vec![nl, ll] } else { vec![ll, nl] };
+            let lanes = lanes_flat(&shape, axis);
+            let mut data = vec![0i64; nl * ll];
+            for (j, lane) in lanes.iter().enumerate() {
+                for (k, &fi) in lane.iter().enumerate() {
+                    data[fi] = (((k * (7 + 2 * j) + 3 * j) % ll) as i64) * 10 + 1000 * j as i64;
+                }
+            }
+            let lay = all_layouts(2, &[1, -1, 2])[li].clone();
+            let grid = nsmc::patterns::q_grid_small(ll);
+            let qs: Vec<f64> = (0..nq).map(|i| grid[(i * grid.len() / nq + (i % 3)) % grid.len()]).collect();
+            let ax = Axis(axis);
+            for &strat in &Strat::ALL {
+                lx.single(|lx| {
+                    let mut h = Host::new(&shape, &data, &lay, -99i64);
+                    let qa = Array1::from(qs.iter().map(|&q| n64(q)).collect::<Vec<N64>>());
+                    let bulk = guarded(|| {
+                        let mut v = h.view_mut();
+                        nsmc::with_strategy!(strat, i, v.quantiles_axis_mut(ax, &qa, i))
+                    });
+                    let bulk = match bulk {
+                        Ok(Ok(b)) => b,
+                        other => {
+                            lx.fail("C18/bulk-failed", || format!("quantiles_axis_mut failed: {:?}; {:?} {:?}", other.map(|r| r.map(|_| ())), c, strat));
+                            return 0;
+                        }
+                    };
+                    for (j, &q) in qs.iter().enumerate() {
+                        let mut h = Host::new(&shape, &data, &lay, -99i64);
+                        let single = guarded(|| {
+                            let mut v = h.view_mut();
+                            nsmc::with_strategy!(strat, i, v.quantile_axis_mut(ax, n64(q), i))
+                        });
+                        match single {
+                            Ok(Ok(s)) => {
+                                if j < bulk.len_of(ax) {
+                                    let slice: Vec<i64> = bulk.index_axis(ax, j).iter().cloned().collect();
+                                    let sv: Vec<i64> = s.iter().cloned().collect();
+                                    lx.check(slice == sv, "C18/bulk-vs-single-quantile-axis", || format!("{} requests, lanes of {} ({:?}, {:?}): bulk slice #{} (q={:?}) = {:?}, single call = {:?}", nq, ll, c, strat, j, q, slice, sv));
+                                } else {
+                                    lx.fail("C18/bulk-shape", || format!("bulk result has {} slices for {} requests", bulk.len_of(ax), nq));
+                                }
+                            }
+                            _ => lx.fail("C18/single-failed", || format!("quantile_axis_mut failed for q={:?}; {:?}", q, c)),
+                        }
+                    }
+                    hash_of(&bulk.iter().cloned().collect::<Vec<_>>())
+                });
+            }
+        },
+    );
+    let nlong = rep.cfg.pick(140, 256);
+    rep.run_sub(
+        "bulk-vs-single-selection-long-lanes",
+        &format!("every length 13..={} x 3 input families x 6 adversarial pivot policies (the same policy on both sides, recursion depth up to n-1) x index sets (ends, sparse, every 3rd, all): every entry of get_many_from_sorted_mut vs get_from_sorted_mut", nlong),
+        (13..=nlong).flat_map(|n| (0..3usize).flat_map(move |fam| Policy::ADVERSARIAL.iter().map(move |&p| (n, fam, p)).collect::<Vec<_>>())),
+        |c, lx| {
+            let (n, fam, pol) = *c;
+            lx.nontrivial(true);
+            let vals: Vec<i32> = (0..n).map(|i| match fam { 0 => i as i32, 1 => (n - i) as i32, _ => ((i * 7919 + 5) % n) as i32 / 2 }).collect();
+            let mut sorted = vals.clone();
+            sorted.sort();
+            let sets: Vec<Vec<usize>> = vec![vec![0, n - 1], vec![n / 2, 1, n - 2], (0..n).step_by(3).collect(), (0..n).collect()];
+            let mode = PivotMode::Bounded { policy: pol, bound: 0 };
+            for set in sets {
+                lx.explore(&mode, |lx| {
+                    let mut a = Array1::from(vals.clone());
+                    let r = guarded(|| a.get_many_from_sorted_mut(&Array1::from(set.clone())));
+                    match r {
+                        Ok(m) => {
+                            for &i in &set {
+                                // the single-item call under the same policy
+                                let mut b = Array1::from(vals.clone());
+                                let single = guarded(|| b.get_from_sorted_mut(i));
+                                match (m.get(&i), single) {
+                                    (Some(v), Ok(s)) => {
+                                        lx.check(*v == s, "C18/bulk-vs-single-selection", || format!("length {} family {} policy {:?}: get_many_from_sorted_mut entry {} = {} but get_from_sorted_mut({}) = {}", n, fam, pol, i, v, i, s));
+                                    }
+                                    (None, _) => lx.fail("C18/bulk-selection-missing-entry", || format!("length {}: no entry for {}", n, i)),
+                                    (_, Err(e)) => lx.fail("C18/single-failed", || format!("get_from_sorted_mut({}) panicked: {}", i, e)),
+                                }
+                            }
+                            hash_of(&m.len())
+                        }
+                        Err(e) => {
+                            lx.fail("C18/bulk-failed", || format!("get_many_from_sorted_mut on length {} ({:?}) panicked: {}", n, pol, e));
+                            0
+                        }
+                    }
+                });
             }
         },
     );
